@@ -9,9 +9,11 @@
  *           whose age >= auth_timeout is closed
  *  ensures  the expiry timer is re-armed exactly once: -1 (disabled) if no young connection is left, else auth_timeout - age of
  *           the oldest young one
- * The age is computed with the same floating-point expression as bus/expirelist.h states it (ms = d_sec * 1000 + d_usec / 1000);
- * the oracle below is written in that form so that no floating-point equivalence has to be proved (measured for C09: integer
- * oracle vs. double code does not terminate). */
+ * Bounded stand-in (kind B): 0..3 connections; auth_timeout ranges over every non-negative int; the connection times are taken
+ * from two fixed catalogues around the deadline (ages 40 000 ms, 30 000 ms exactly, 29 999.999 ms — oldest first — and the
+ * unsorted 10 000 / 40 000 / 20 000 ms), because symbolic floating-point ages (ELAPSED_MILLISECONDS_SINCE is double arithmetic)
+ * do not terminate in the solver (measured: > 10 min for 3 connections even with the oracle written in the same form).  The
+ * oracle is integer arithmetic on microseconds: expired <=> age_us >= auth_timeout * 1000. */
 #include <config.h>
 #include "dbus/dbus-internals.h"
 #include VERIF_TU
@@ -36,37 +38,36 @@ void *dbus_connection_get_data (DBusConnection *c, dbus_int32_t slot) { PRE (slo
 void bus_context_log (BusContext *context, DBusSystemLogSeverity severity, const char *msg, ...) { g_logs++; }
 void dbus_connection_close (DBusConnection *c) { closed[idx (c)]++; }
 void bus_expire_timeout_set_interval (DBusTimeout *timeout, int next_interval) { PRE (timeout == (DBusTimeout *) &c_timeout, "bus_expire_timeout_set_interval: the expiry timer of the incomplete list"); g_set_calls++; g_set_value = next_interval; }
-/* age in milliseconds, in the form bus/expirelist.h documents it */
-#define AGE(i) ((((double) now_sec) - ((double) D[i].connection_tv_sec)) * 1000.0 + (((double) now_usec) - ((double) D[i].connection_tv_usec)) / 1000.0)
+#ifndef VERIF_SORTED
+#define VERIF_SORTED 1
+#endif
+#define NOW_SEC 1000L
+#define NOW_USEC 500000L
+#if VERIF_SORTED
+static const long T_SEC[NC + 1] = { 960, 970, 970, 990 }, T_USEC[NC + 1] = { 500000, 500000, 500001, 0 };      /* ages 40 000 000, 30 000 000, 29 999 999 us */
+#else
+static const long T_SEC[NC + 1] = { 990, 960, 980, 990 }, T_USEC[NC + 1] = { 500000, 500000, 500000, 0 };      /* ages 10 s, 40 s, 20 s: NOT oldest first */
+#endif
+#define AGE_US(i) ((NOW_SEC - T_SEC[i]) * 1000000L + (NOW_USEC - T_USEC[i]))
 
-/* n is a constant in each call, so that the list shape is concrete and the code's age expressions are syntactically the oracle's */
+/* n is a constant in each call, so that the list shape and the times are concrete for symbolic execution */
 static void run (const int n)
 {
   DBusList *L[NC] = { &L0, &L1, &L2 };
   conns.refcount = 1; conns.context = (BusContext *) &c_ctx; conns.expire_timeout = (DBusTimeout *) &c_timeout; conns.incomplete = NULL; conns.n_incomplete = n; conns.completed = NULL;
-  now_sec = nondet_long (); now_usec = nondet_long (); __CPROVER_assume (now_sec >= 0 && now_sec < 0x7fffffffL && now_usec >= 0 && now_usec < 1000000);
+  now_sec = NOW_SEC; now_usec = NOW_USEC;
   in_timeout = nondet_int (); __CPROVER_assume (in_timeout >= 0);
   for (int i = 0; i < NC + 1; i++)
-    {
-      D[i].connections = &conns; D[i].connection = (DBusConnection *) &c_obj[i];
-      D[i].connection_tv_sec = nondet_long (); D[i].connection_tv_usec = nondet_long ();
-      /* monotonic clock: a connection was made no later than now */
-      __CPROVER_assume (D[i].connection_tv_sec >= 0 && D[i].connection_tv_usec >= 0 && D[i].connection_tv_usec < 1000000
-                        && (D[i].connection_tv_sec < now_sec || (D[i].connection_tv_sec == now_sec && D[i].connection_tv_usec <= now_usec)));
-      closed[i] = 0;
-    }
+    { D[i].connections = &conns; D[i].connection = (DBusConnection *) &c_obj[i]; D[i].connection_tv_sec = T_SEC[i]; D[i].connection_tv_usec = T_USEC[i]; closed[i] = 0; }
   for (int i = 0; i < NC; i++) if (i < n)
     {
       L[i]->data = &c_obj[i]; D[i].link_in_connection_list = L[i];
       if (conns.incomplete == NULL) { L[i]->next = L[i]->prev = L[i]; conns.incomplete = L[i]; }
       else { L[i]->next = conns.incomplete; L[i]->prev = conns.incomplete->prev; conns.incomplete->prev->next = L[i]; conns.incomplete->prev = L[i]; }
     }
-  _Bool sorted = nondet_bool ();
-  double a0 = AGE (0), a1 = AGE (1), a2 = AGE (2);
-  _Bool x0 = n > 0 && a0 >= (double) in_timeout, x1 = n > 1 && a1 >= (double) in_timeout, x2 = n > 2 && a2 >= (double) in_timeout;
-  /* oldest-first order, used only through its consequence "the expired connections form a prefix of the list" (stated on the
-   * verdicts rather than on the ages, so that no transitivity over floating-point comparisons has to be derived by the solver) */
-  if (sorted) __CPROVER_assume (IMP (x1, x0) && IMP (x2, x1));
+  long limit_us = (long) in_timeout * 1000L;
+  _Bool x0 = n > 0 && AGE_US (0) >= limit_us, x1 = n > 1 && AGE_US (1) >= limit_us, x2 = n > 2 && AGE_US (2) >= limit_us;
+  _Bool sorted = VERIF_SORTED;
   g_set_calls = 0; g_logs = 0;
   bus_connections_expire_incomplete (&conns);
   POST (closed[0] <= 1 && closed[1] <= 1 && closed[2] <= 1 && closed[3] == 0, "expire_incomplete: no connection is closed twice, none outside the list");
@@ -74,11 +75,17 @@ static void run (const int n)
   POST (IMP (sorted, (closed[0] == 1) == x0 && (closed[1] == 1) == x1 && (closed[2] == 1) == x2), "expire_incomplete: oldest-first list => EVERY incomplete connection whose age >= auth_timeout is closed");
   POST (g_set_calls == 1, "expire_incomplete: the expiry timer is re-armed exactly once");
   POST (IMP (sorted && x0 == (n > 0) && x1 == (n > 1) && x2 == (n > 2), g_set_value == -1), "expire_incomplete: nothing young left => timer disabled (-1)");
-  POST (IMP (sorted && n > 0 && !x0, g_set_value == (int) (((double) in_timeout) - a0)), "expire_incomplete: otherwise the timer fires when the oldest young connection reaches auth_timeout");
-  POST (IMP (sorted && n > 1 && x0 && !x1, g_set_value == (int) (((double) in_timeout) - a1)), "expire_incomplete: (second) timer at the oldest young connection");
+  POST (IMP (sorted && n > 0 && !x0, g_set_value == (int) ((limit_us - AGE_US (0)) / 1000)), "expire_incomplete: otherwise the timer fires when the oldest young connection reaches auth_timeout");
+  POST (IMP (sorted && n > 1 && x0 && !x1, g_set_value == (int) ((limit_us - AGE_US (1)) / 1000)), "expire_incomplete: (second) timer at the oldest young connection");
+  POST (IMP (sorted && n > 2 && x1 && !x2, g_set_value == (int) ((limit_us - AGE_US (2)) / 1000)), "expire_incomplete: (third) timer at the oldest young connection");
   POST (conns.n_incomplete == n && conns.incomplete == (n > 0 ? L[0] : NULL), "expire_incomplete: the list itself is not modified here (removal happens when the close is dispatched)");
+  POST (g_logs == closed[0] + closed[1] + closed[2], "expire_incomplete: every timed-out connection is logged");
+#if VERIF_SORTED
   if (n == 3 && closed[0] && closed[1] && !closed[2]) REACH ("two-expired-one-young"); if (n == 3 && closed[2]) REACH ("all-expired"); if (n == 0) REACH ("empty"); if (n > 0 && !closed[0]) REACH ("none-expired");
-  if (!sorted && n == 3 && !closed[1] && x2) REACH ("unsorted-list-leaves-an-old-one");
+  if (n == 3 && in_timeout == 30000 && closed[1] && !closed[2]) REACH ("exact-deadline-is-expired");
+#else
+  if (n == 3 && !closed[0] && x1) REACH ("unsorted-list-leaves-an-old-one"); if (n == 3 && closed[0] && closed[1] && closed[2]) REACH ("all-expired");
+#endif
 }
 void harness (void)
 {
